@@ -1,5 +1,6 @@
 (* Properties/C06.v — pinned statements only. *)
-From Boreal Require Import Base.Prelude Base.Res Model.Eval Spec.CondSem Proofs.LoopProofs Proofs.NoScanProofs.
+From Boreal Require Import Base.Prelude Base.Res Model.Eval Spec.CondSem Model.EvalCost Model.Scanner Spec.RuleSetSpec
+     Proofs.LoopProofs Proofs.NoScanProofs Proofs.ScannerProofs Proofs.NoScanScannerProofs.
 
 (* The evaluation pass done before the string scan (no matches available) is sound: for every
    well-formed condition, whatever it answers other than "matches needed" is what the evaluation with
@@ -18,6 +19,25 @@ Theorem C06_no_scan_rule_verdict :
     eval_rule (en0 prev ext fsz mem) cond = Ok b ->
     eval_rule (enM M prev ext fsz mem) cond = Ok b.
 Proof. exact no_scan_rule_verdict. Qed.
+
+(* At the level of the whole scan (list API): whether or not the scan may skip string scanning, whether
+   or not full matches are requested, the rules returned are those of the declarative rule-set semantics;
+   hence the matched rules are the same under any two configurations (include_not_matched only adds
+   rules flagged not matched). *)
+Theorem C06_scan_any_config_is_spec :
+  forall c inp sc,
+    c_cb c = false ->
+    wf_scanner inp sc = true -> ns_bound (s_nns sc) (s_globals sc) -> ns_bound (s_nns sc) (s_rules sc) ->
+    o_err (run_scan c Never inp sc) = None
+    /\ o_rules (run_scan c Never inp sc) = spec_reported sc inp (c_nm c).
+Proof. exact run_scan_list_spec_any. Qed.
+
+Theorem C06_scan_options_same_matches :
+  forall c1 c2 inp sc,
+    c_cb c1 = false -> c_cb c2 = false ->
+    wf_scanner inp sc = true -> ns_bound (s_nns sc) (s_globals sc) -> ns_bound (s_nns sc) (s_rules sc) ->
+    filter er_matched (o_rules (run_scan c1 Never inp sc)) = filter er_matched (o_rules (run_scan c2 Never inp sc)).
+Proof. exact scan_options_same_matches. Qed.
 
 (* the connectives and quantifier accumulators are monotone in the refinement order *)
 Theorem C06_and_monotone :
@@ -57,6 +77,8 @@ Proof. vm_compute. repeat split. Qed.
 
 Print Assumptions C06_no_scan_sound.
 Print Assumptions C06_no_scan_rule_verdict.
+Print Assumptions C06_scan_any_config_is_spec.
+Print Assumptions C06_scan_options_same_matches.
 Print Assumptions C06_and_monotone.
 Print Assumptions C06_or_monotone.
 Print Assumptions C06_for_monotone.
